@@ -89,13 +89,22 @@ impl TraitCodegen<'_> {
         // a generated trait only gets the ones entrait knows how to re-apply.
         let is_entraited_trait = matches!(fn_input_mode, FnInputMode::RawTrait(_))
             && matches!(self.trait_indirection, TraitIndirection::Trait);
+        let is_inner = |attr: &&SubAttribute| {
+            matches!(attr, SubAttribute::Other(attr) if matches!(attr.style, syn::AttrStyle::Inner(_)))
+        };
         let trait_sub_attributes = self.sub_attributes.iter().filter(|attr| {
-            is_entraited_trait
-                || matches!(
-                    attr,
-                    SubAttribute::AsyncTrait(_) | SubAttribute::Automock(_)
-                )
+            !is_inner(attr)
+                && (is_entraited_trait
+                    || matches!(
+                        attr,
+                        SubAttribute::AsyncTrait(_) | SubAttribute::Automock(_)
+                    ))
         });
+        // the inner attributes of an entraited trait stay where they were: at the start of its body
+        let trait_inner_attributes = self
+            .sub_attributes
+            .iter()
+            .filter(|attr| is_entraited_trait && is_inner(attr));
 
         Ok(quote_spanned! { span=>
             #opt_unimock_attr
@@ -103,6 +112,7 @@ impl TraitCodegen<'_> {
             #opt_mockall_automock_attr
             #(#trait_sub_attributes)*
             #trait_visibility trait #trait_ident #params #supertraits #where_clause {
+                #(#trait_inner_attributes)*
                 #(#fn_defs)*
             }
         })
